@@ -2,6 +2,7 @@
 package c24
 
 import (
+	"bytes"
 	"context"
 	"crypto/sha256"
 	"encoding/hex"
@@ -9,8 +10,11 @@ import (
 	"io/fs"
 	"net/netip"
 	"os"
+	"os/exec"
 	"path/filepath"
+	"regexp"
 	"sort"
+	"strconv"
 	"strings"
 	"sync"
 	"testing"
@@ -496,6 +500,7 @@ type mergeCase struct {
 	DstExists bool     // an empty destination: does the directory exist?
 	SrcEnc    encoders.Type
 	DstEnc    encoders.Type
+	CLI       bool // the merges are run through the gpdb command (cmd/gpdb/cmd/merge.go) instead of the library call
 }
 
 var clsGen = rapid.SampledFrom([]string{"absent", "partial", "partial", "complete", "complete"})
@@ -506,6 +511,7 @@ func drawCase(t *rapid.T, zones []string) *mergeCase {
 	c.TZ = rapid.SampledFrom(zones).Draw(t, "tz")
 	c.Tol = tolOf(rapid.SampledFrom([]int64{0, 0, -60, 150, 150, 300, 3600, 21600}).Draw(t, "tolerance"))
 	c.Overwrite = rapid.Bool().Draw(t, "overwrite")
+	c.CLI = rapid.IntRange(0, 3).Draw(t, "via-command") == 0
 	c.DryFirst = rapid.IntRange(0, 2).Draw(t, "dry-run-first") == 0
 	d0 := rapid.IntRange(0, len(gen.DefaultDays)-3).Draw(t, "day0")
 	c.Days = gen.DefaultDays[d0 : d0+3]
@@ -618,7 +624,7 @@ func (c *mergeCase) optionText() string {
 	if c.Request != nil {
 		req = strings.Join(c.Request, ",")
 	}
-	return fmt.Sprintf("TZ=%s ifaces=%s overwrite=%v tolerance=%s dry-run-first=%v destination-exists=%v encoders=%v/%v", c.TZ, req, c.Overwrite, c.Tol.display, c.DryFirst, c.DstExists, c.SrcEnc, c.DstEnc)
+	return fmt.Sprintf("TZ=%s ifaces=%s overwrite=%v tolerance=%s dry-run-first=%v destination-exists=%v encoders=%v/%v via-command=%v", c.TZ, req, c.Overwrite, c.Tol.display, c.DryFirst, c.DstExists, c.SrcEnc, c.DstEnc, c.CLI)
 }
 
 func (c *mergeCase) describe() string {
@@ -938,7 +944,63 @@ func queryAll(tz, dbPath string, ifaces []string, first, last int64) (model.Quer
 
 func zones() []string { return []string{"UTC", "America/New_York", "Asia/Kolkata"} }
 
+var summaryLine = regexp.MustCompile(`(?m)^(Interfaces processed|Days copied|Days rebuilt|Days skipped|Conflicts resolved by destination|Conflicts resolved by source): (\d+)$`)
+
+// runMergeCLI runs `gpdb merge SRC DST` (the built command) with the flags the case translates to and reads
+// the summary it prints.
+func runMergeCLI(src, dst string, c *mergeCase, dry bool) (sum goDB.MergeSummary, err error) {
+	args := []string{"merge", src, dst, fmt.Sprintf("--complete-tolerance=%ds", c.Tol.opt)}
+	if len(c.Request) > 0 {
+		args = append(args, "--iface="+strings.Join(c.Request, ","))
+	}
+	if c.Overwrite {
+		args = append(args, "--overwrite")
+	}
+	if dry {
+		args = append(args, "--dry-run")
+	}
+	cmd := exec.Command(execpool.Bin("gpdb"), args...)
+	cmd.Env = append(os.Environ(), "TZ="+c.TZ)
+	var stdout, stderr bytes.Buffer
+	cmd.Stdout, cmd.Stderr = &stdout, &stderr
+	if rerr := cmd.Run(); rerr != nil {
+		msg := strings.TrimSpace(stderr.String())
+		if msg == "" {
+			msg = strings.TrimSpace(stdout.String())
+		}
+		return sum, fmt.Errorf("gpdb %s: %v: %s", strings.Join(args, " "), rerr, msg)
+	}
+	out := stdout.String()
+	seen := 0
+	for _, m := range summaryLine.FindAllStringSubmatch(out, -1) {
+		n, _ := strconv.Atoi(m[2])
+		seen++
+		switch m[1] {
+		case "Interfaces processed":
+			sum.InterfacesProcessed = n
+		case "Days copied":
+			sum.DaysCopied = n
+		case "Days rebuilt":
+			sum.DaysRebuilt = n
+		case "Days skipped":
+			sum.DaysSkipped = n
+		case "Conflicts resolved by destination":
+			sum.ConflictsResolvedByDestination = n
+		case "Conflicts resolved by source":
+			sum.ConflictsResolvedBySource = n
+		}
+	}
+	if seen != 6 || !strings.Contains(out, fmt.Sprintf("Merge completed (dry-run=%t)", dry)) {
+		return sum, fmt.Errorf("gpdb %s: unexpected output %q", strings.Join(args, " "), out)
+	}
+	sum.DryRun = dry
+	return sum, nil
+}
+
 func runMerge(src, dst string, c *mergeCase, dry bool) (goDB.MergeSummary, error) {
+	if c.CLI {
+		return runMergeCLI(src, dst, c, dry)
+	}
 	return goDB.MergeDatabases(context.Background(), goDB.MergeOptions{
 		SourcePath: src, DestinationPath: dst, Interfaces: c.Request,
 		Overwrite: c.Overwrite, DryRun: dry, CompleteTolerance: time.Duration(c.Tol.opt) * time.Second,
@@ -1069,6 +1131,9 @@ func TestC24Merge(t *testing.T) {
 		again := refMerge(c.Src, want.DB, selected, c.Overwrite, c.Tol, false)
 
 		cls := []string{"tz:" + c.TZ, "tolerance:" + c.Tol.display, "select:" + c.SelKind, fmt.Sprintf("overwrite:%v", c.Overwrite)}
+		if c.CLI {
+			cls = append(cls, "route:gpdb-merge-command")
+		}
 		if c.DryFirst {
 			cls = append(cls, "dry-run-first")
 		}
